@@ -694,7 +694,22 @@ def rule_r7(ctx):
                     for h in getattr(st, "handlers", []):
                         yield from own_level(h.body)
 
-            skips = [x for x in own_level(lp.body) if isinstance(x, (ast.Continue, ast.Break))]
+            # a skip is a filter on the source element only if nothing was transferred for it before (no append in the same
+            # block) and its condition looks at the element itself - a test of what the mapping returned (`mapped is None`)
+            # is the admitted result filter
+            mapped_locals = {t.id for st in own_level(lp.body) if isinstance(st, ast.Assign) for t in st.targets if isinstance(t, ast.Name)}
+            skips = []
+            for x in own_level(lp.body):
+                if not isinstance(x, (ast.Continue, ast.Break)):
+                    continue
+                blk_ = next((b for b in (getattr(getattr(x, "_parent", None), fld, None) for fld in ("body", "orelse")) if isinstance(b, list) and x in b), [])
+                appended_before = any(isinstance(c_, ast.Call) and isinstance(c_.func, ast.Attribute) and c_.func.attr in ("append", "add")
+                                      for st in blk_[: blk_.index(x)] for c_ in ast.walk(st)) if x in blk_ else False
+                cond = getattr(getattr(x, "_parent", None), "test", None)
+                cond_names = {y.id for y in ast.walk(cond) if isinstance(y, ast.Name)} if cond is not None else set()
+                on_result = bool(cond_names) and cond_names <= mapped_locals
+                if not appended_before and not on_result:
+                    skips.append(x)
             ctx.check("R7", f"{f.local}: the loop over {norm(lp.iter)[:50]} transfers every element", not skips, f, skips[0] if skips else lp,
                       f"the loop over `{norm(lp.iter)}` that builds the clone's collection skips elements", how="no continue/break in the transferring loop",
                       nontrivial=False, construct=f"skipping transfer loop over {norm(lp.iter)[:60]}")
